@@ -233,7 +233,7 @@ func c07Parse(w *fw.W, idx int, r *fw.Rand) {
 func c07Capacity(w *fw.W, idx int, r *fw.Rand) {
 	var src, want, fam string
 	n := 0
-	switch r.Intn(9) {
+	switch r.Intn(11) {
 	case 0: // code size: n-term sum
 		n = fw.PickT(r, []int{100, 2000, 4094, 4095, 4096, 4097, 4098, 5000, 8000})
 		src, want, fam = strings.TrimSuffix(strings.Repeat("1+", n), "+"), fmt.Sprintf("i%d", n), "code-size-main"
@@ -258,6 +258,24 @@ func c07Capacity(w *fw.W, idx int, r *fw.Rand) {
 	case 7: // container length via concatenation / repetition
 		n = fw.PickT(r, []int{10, 255, 256, 257, 300})
 		src, want, fam = fmt.Sprintf("xs = [1]*%d; (xs + xs).len()", n), fmt.Sprintf("i%d", 2*n), "concat-length"
+	case 9: // repetition counts whose product with the length wraps around the word size
+		n = r.Intn(8)
+		k := fw.PickT(r, []int{3, 4, 8, 16})
+		var el []string
+		for i := 0; i < k; i++ {
+			el = append(el, "1")
+		}
+		// counts c with (k*c mod 2^64) small: c = (2^64*j + small)/k for j = 1..k-1
+		big := map[int][]string{
+			3:  {"6148914691236517206", "6148914691236517207", "12297829382473034411"},
+			4:  {"4611686018427387905", "4611686018427387904", "4611686018427387968"},
+			8:  {"2305843009213693953", "2305843009213693984", "2305843009213693952"},
+			16: {"1152921504606846977", "1152921504606846976", "1152921504606847000"},
+		}
+		src, want, fam = "xs = ["+strings.Join(el, ",")+"]; (xs * "+r.Pick(big[k])+").len()", "REJECT", "repeat-wraparound"
+		if r.Bool() {
+			src = "xs = [" + strings.Join(el, ",") + "]; (" + r.Pick(big[k]) + " * xs).len()"
+		}
 	default: // statements: many statements in sequence leave their values on the stack
 		n = fw.PickT(r, []int{10, 500, 990, 999, 1000, 1001, 1200})
 		src, want, fam = strings.Repeat("1;", n)+"5", "i5", "statement-count"
@@ -287,7 +305,9 @@ func c07Capacity(w *fw.W, idx int, r *fw.Rand) {
 		if drops > 0 {
 			w.Violate(idx, "capacity", "capacity|code-dropped|"+fam, desc, fmt.Sprintf("%d instructions were discarded while compiling, yet the program ran without error and returned %s", drops, vm.Ret.ToRepr()), nil)
 		}
-		if got := Canon(vm.Ret); got != want {
+		if want == "REJECT" {
+			w.Violate(idx, "capacity", "capacity|over-long-accepted|"+fam, desc+" src="+src, fmt.Sprintf("a container far beyond the length capacity was accepted and yielded %s", trunc(Canon(vm.Ret), 100)), nil)
+		} else if got := Canon(vm.Ret); got != want {
 			w.Violate(idx, "capacity", "capacity|partial-value|"+fam, desc, fmt.Sprintf("returned %s, the whole program evaluates to %s", trunc(got, 100), want), nil)
 		}
 	} else {
